@@ -203,6 +203,140 @@ theorem decoder_bounds (f : RawFrame) (dst : Id) (d : Dgram Tok) (h : decodeRaw 
             · split at h <;> cases h
             · cases h
 
+/-! ### The timed dimension: the write timeout is a PER-FRAME budget
+
+`Actor::write_frame` = `tokio::time::timeout(self.timeout, self.stream.send(frame))`, with
+`self.timeout = Config::write_timeout` (default `SERVER_WRITE_TIMEOUT`, regenerated from
+the source as `Generated.C05.writeTimeoutMs`; the shape of `write_frame` and of the packet
+branch of the actor loop are pinned by the constants `perFrameWriteTimeout`,
+`packetBranchWritesOneFrame`).  In the timed model (`TOp`, `tstep`) the client of a
+connection accepts each written frame after an arbitrary delay; a write fails iff THAT
+frame's delay exceeds `T`.  How many frames senders have queued — the burst size — does not
+enter: a receiver that accepts every single frame within `T` is never ended by a write. -/
+
+/-- Timed histories are untimed histories, so everything proved above holds for them too:
+in particular every queued packet passes the size check at every moment. -/
+theorem timed_queue_invariant (cfg : Cfg α) (T : Nat) (tops : List (TOp α)) (c : Cid) (x : Conn α)
+    (hx : (trun cfg T tops).conns c = some x) : ∀ p ∈ x.packetQ, sendable cfg p.2 = true :=
+  qInv_trun cfg T tops c x hx
+
+/-- **No cross kill, timed.**  After any timed history, let the next step be a write of the
+actor of ANY connection `c'` with ANY delay, or the handling of ANY frame from `c'`.
+A connection `c` whose own client is within the per-frame budget for this step
+(`c' = c → delay ≤ T`) keeps its record, keeps running and stays uncancelled — whatever
+other connections' clients do, however many frames are queued for `c`, whoever queued them. -/
+theorem no_cross_kill_timed (cfg : Cfg α) (T : Nat) (tops : List (TOp α)) (c : Cid) (x : Conn α)
+    (hx : (trun cfg T tops).conns c = some x) (c' : Cid) (delay : Nat) (hbudget : c' = c → delay ≤ T) :
+    (∃ x', (tstep cfg T (trun cfg T tops) (.writePacket c' delay)).conns c = some x' ∧
+        x'.exited = x.exited ∧ x'.cancelled = x.cancelled ∧ x'.owner = x.owner) ∧
+    (∃ x', (tstep cfg T (trun cfg T tops) (.writeMsg c' delay)).conns c = some x' ∧
+        x'.exited = x.exited ∧ x'.cancelled = x.cancelled ∧ x'.owner = x.owner) ∧
+    (∀ f, c' ≠ c → ∃ x', (tstep cfg T (trun cfg T tops) (.base (.recvFrame c' f))).conns c = some x' ∧
+        x'.exited = x.exited ∧ x'.cancelled = x.cancelled ∧ x'.owner = x.owner) := by
+  have hq := qInv_trun cfg T tops
+  generalize trun cfg T tops = s at hx hq
+  refine ⟨?_, ?_, fun f hne => ?_⟩
+  · by_cases hc : c' = c
+    · subst hc
+      -- its own write, within the budget: the queue head passes the size check, the actor goes on
+      simp only [tstep, hbudget rfl, if_true]
+      unfold RelayRegistry.deliverPacket
+      simp only [hx]
+      split
+      · exact ⟨x, hx, rfl, rfl, rfl⟩
+      · cases hpq : x.packetQ with
+        | nil => exact ⟨x, by simp [hx], rfl, rfl, rfl⟩
+        | cons p rest =>
+          obtain ⟨src, d⟩ := p
+          have hs : sendable cfg d = true := hq c' x hx (src, d) (by rw [hpq]; exact List.mem_cons_self)
+          simp only [hs, if_true]
+          exact ⟨{ x with packetQ := rest }, by simp, rfl, rfl, rfl⟩
+    · have hne : c ≠ c' := fun h => hc h.symm
+      refine ⟨x, ?_, rfl, rfl, rfl⟩
+      simp only [tstep]
+      split
+      · rw [deliverPacket_other cfg s c' c hne]; exact hx
+      · rw [actorExit_other _ c' c hne, deliverPacket_other cfg s c' c hne]; exact hx
+  · by_cases hc : c' = c
+    · subst hc
+      simp only [tstep, hbudget rfl, if_true]
+      unfold RelayRegistry.deliverMsg
+      simp only [hx]
+      split
+      · exact ⟨x, hx, rfl, rfl, rfl⟩
+      · split
+        · exact ⟨x, hx, rfl, rfl, rfl⟩
+        · rename_i m rest _
+          exact ⟨{ x with msgQ := rest }, by simp, rfl, rfl, rfl⟩
+    · have hne : c ≠ c' := fun h => hc h.symm
+      refine ⟨x, ?_, rfl, rfl, rfl⟩
+      simp only [tstep]
+      split
+      · rw [deliverMsg_other s c' c hne]; exact hx
+      · rw [actorExit_other _ c' c hne, deliverMsg_other s c' c hne]; exact hx
+  · obtain ⟨_, x', hx', ho, hcan, hex, _, _⟩ := no_cross_kill_step cfg s c' f c x hx
+    exact ⟨x', hx', hex, hcan, ho⟩
+
+/-- **Any burst drains.**  In a state of a timed history, let `c` be running with ANY number
+of packets queued (whoever sent them).  If its client accepts each of them within the
+per-frame budget (`ds`: one delay per queued packet, each `≤ T` — their SUM is unbounded),
+then writing them one after the other delivers every queued packet, in order, and `c` is
+still running afterwards. -/
+theorem burst_drains_within_budget (cfg : Cfg α) (T : Nat) (ds : List Nat) (hds : ∀ d ∈ ds, d ≤ T)
+    (s : State α) (hq : QInv cfg s) (c : Cid) (x : Conn α) (hx : s.conns c = some x) (hex : x.exited = false)
+    (hlen : ds.length = x.packetQ.length) :
+    ∃ x', (trunFrom cfg T s (ds.map (TOp.writePacket c))).conns c = some x' ∧ x'.exited = false ∧
+      x'.cancelled = x.cancelled ∧ x'.packetQ = [] ∧
+      deliveredTo (trunFrom cfg T s (ds.map (TOp.writePacket c))).log c = deliveredTo s.log c ++ x.packetQ := by
+  induction ds generalizing s x with
+  | nil =>
+    have : x.packetQ = [] := List.eq_nil_of_length_eq_zero (by simpa using hlen.symm)
+    exact ⟨x, hx, hex, rfl, this, by simp [trunFrom, this]⟩
+  | cons d ds ih =>
+    cases hpq : x.packetQ with
+    | nil => rw [hpq] at hlen; simp at hlen
+    | cons p rest =>
+      obtain ⟨src, dg⟩ := p
+      have hd : d ≤ T := hds d List.mem_cons_self
+      have hs : sendable cfg dg = true := hq c x hx (src, dg) (by rw [hpq]; exact List.mem_cons_self)
+      have hstep : tstep cfg T s (.writePacket c d) =
+          emit (setConn s c (some { x with packetQ := rest })) [.out c (.datagrams src dg)] := by
+        simp [tstep, hd, RelayRegistry.deliverPacket, hx, hex, hpq, hs]
+      have hq' : QInv cfg (tstep cfg T s (.writePacket c d)) := by
+        obtain ⟨ops, ho⟩ := tstep_eq_steps cfg T s (.writePacket c d)
+        rw [ho]; exact QInv.runFrom cfg ops hq
+      have hx' : (tstep cfg T s (.writePacket c d)).conns c = some { x with packetQ := rest } := by
+        rw [hstep]; simp
+      obtain ⟨x', h1, h2, h3, h4, h5⟩ := ih (fun d' hd' => hds d' (List.mem_cons_of_mem _ hd'))
+        (tstep cfg T s (.writePacket c d)) hq' { x with packetQ := rest } hx' hex
+        (by rw [hpq] at hlen; simpa using hlen)
+      refine ⟨x', h1, h2, h3, h4, ?_⟩
+      show deliveredTo (trunFrom cfg T (tstep cfg T s (.writePacket c d)) (ds.map (TOp.writePacket c))).log c = _
+      rw [h5, hstep]
+      simp [deliveredTo]
+
+/-- The other side of the budget: a client that takes longer than `T` for ONE frame ends
+its OWN connection's actor (and nobody else's, `no_cross_kill_timed`). -/
+theorem slow_client_times_out_itself (cfg : Cfg α) (T : Nat) (s : State α) (c : Cid) (delay : Nat)
+    (h : T < delay) (x : Conn α) (hx : s.conns c = some x) :
+    ((tstep cfg T s (.writePacket c delay)).conns c).map (·.exited) = some true := by
+  have hd : ¬ delay ≤ T := by omega
+  simp only [tstep, hd, if_false]
+  unfold RelayRegistry.actorExit
+  have : ∃ y, (deliverPacket cfg s c).conns c = some y := by
+    have := (deliverPacket_sameReg cfg s c).owner c
+    rw [hx] at this
+    cases hy : (deliverPacket cfg s c).conns c with
+    | none => rw [hy] at this; simp at this
+    | some y => exact ⟨y, rfl⟩
+  obtain ⟨y, hy⟩ := this
+  simp [hy]
+
+/-- The write timeout the theorems are instantiated with by the driver: 2000 ms. -/
+theorem write_timeout_value : defaultWriteTimeoutMs = 2000 ∧
+    Generated.C05.perFrameWriteTimeout = true ∧ Generated.C05.packetBranchWritesOneFrame = true ∧
+    Generated.C05.configUsesWriteTimeout = true ∧ Generated.C05.actorUsesConfigTimeout = true := by decide
+
 /-! ### Non-vacuity -/
 
 def demoCfg : Cfg (List Nat) := cfgOf List.length 2
@@ -224,5 +358,17 @@ example : (decodeRaw { typ := some 4, key := .id 0, hdr := [2], bulk := ⟨"p655
 example : sendable (driverCfg 2) ⟨2, 0, ⟨"p65503.1", 65503⟩⟩ = false := by decide
 example : sendable (driverCfg 2) ⟨2, 0, ⟨"p65502.1", 65502⟩⟩ = true := by decide
 example : sendable (driverCfg 2) ⟨2, 9, ⟨"p65501.1", 65501⟩⟩ = false := by decide
+
+/-- A burst of three for endpoint 0, whose client takes 1500 ms per frame (budget 2000 ms):
+4500 ms in total, all three delivered, connection 0 still running. -/
+def demoBurst : List (TOp (List Nat)) :=
+  [.base (.register 0 false), .base (.register 1 false),
+   .base (.recvFrame 1 (.datagrams 0 ⟨0, 0, [1]⟩)), .base (.recvFrame 1 (.datagrams 0 ⟨0, 0, [2]⟩)),
+   .writePacket 0 1500, .writePacket 0 1500]
+
+example : ((trun demoCfg 2000 demoBurst).conns 0).map (·.exited) = some false := by decide
+example : deliveredTo (trun demoCfg 2000 demoBurst).log 0 = [(1, ⟨0, 0, [1]⟩), (1, ⟨0, 0, [2]⟩)] := by decide
+example : ((trun demoCfg 2000 (demoBurst ++ [.writePacket 0 2001])).conns 0).map (·.exited) = some true := by
+  decide
 
 end IrohModel.C05
